@@ -34,6 +34,10 @@ inductive Val where
   | enumOther (s : String)
   deriving Repr, BEq, Inhabited
 
+def Val.isUnit : Val → Bool
+  | .unit => true
+  | _ => false
+
 inductive DErr where
   | mismatch (what : String)
   | unmodelled (what : String)
@@ -88,7 +92,7 @@ def unbox : RTy → RTy
 
 /-- `deserialize_nested_id` at type `t` (String under Option / Vec / Box) -/
 def deNestedId : RTy → Json → D Val
-  | .opt t, j => if j == .null then pure .unit else Val.some <$> deNestedId t j
+  | .opt t, j => if j.isNull then pure .unit else Val.some <$> deNestedId t j
   | .vec t, j => match j with
     | .arr xs => Val.list <$> xs.mapM (deNestedId t)
     | _ => bad "expected a list of IDs"
@@ -98,7 +102,7 @@ def deNestedId : RTy → Json → D Val
 def deHelper (h : String) (ty : RTy) (j : Json) : D Val :=
   if h == "graphql_client::serde_with::deserialize_id" then deIntOrString j
   else if h == "graphql_client::serde_with::deserialize_option_id" then
-    (if j == .null then pure .unit else Val.some <$> deIntOrString j)
+    (if j.isNull then pure .unit else Val.some <$> deIntOrString j)
   else if h == "graphql_client::serde_with::deserialize_nested_id" then deNestedId ty j
   else unmodelled ("deserialize_with " ++ h)
 
@@ -112,7 +116,7 @@ outside the fuel-indexed recursion. -/
 
 /-- `Option` / `Vec` / `Box` nesting around named types -/
 def deTyWith (path : String → Json → D Val) : RTy → Json → D Val
-  | .opt t, j => if j == .null then pure .unit else Val.some <$> deTyWith path t j
+  | .opt t, j => if j.isNull then pure .unit else Val.some <$> deTyWith path t j
   | .vec t, j => match j with
     | .arr xs => Val.list <$> xs.mapM (deTyWith path t)
     | _ => bad "expected a sequence"
@@ -232,7 +236,7 @@ mutual
       match e.find p with
       | some (.alias _ _ t) => deTyWith (dePath e b fuel) t j
       | some (.struct _ _ _ fields) => deStructWith (dePath e b fuel) (deFlat e fuel) fields j
-      | some (.unitStruct ..) => if j == .null then pure .unit else bad "expected unit"
+      | some (.unitStruct ..) => if j.isNull then pure .unit else bad "expected unit"
       | some (.tagged _ _ _ tag vs) => (match j with
         | .obj kvs => deTaggedWith (dePath e true fuel) b tag vs kvs
         | .arr _ => unmodelled "internally tagged enum from a sequence"
@@ -313,74 +317,84 @@ def entriesOf : Json → Option (List (String × Json))
   | .obj kvs => some kvs
   | _ => none
 
-mutual
-  def serTy (e : Env) : Nat → RTy → Val → D Json
-    | 0, _, _ => unmodelled "fuel"
-    | fuel+1, .opt t, v => match v with
-      | .unit => pure .null
-      | .some x => serTy e fuel t x
-      | _ => unmodelled "value / type mismatch (Option)"
-    | fuel+1, .vec t, v => match v with
-      | .list xs => Json.arr <$> xs.mapM (serTy e fuel t)
-      | _ => unmodelled "value / type mismatch (Vec)"
-    | fuel+1, .box t, v => serTy e fuel t v
-    | fuel+1, .path p, v =>
-      match v with
-      | .str s => pure (.str s)
-      | .int n => pure (.int n)
-      | .float j => pure j
-      | .bool b => pure (.bool b)
-      | .enumOther s => pure (.str s)
-      | _ =>
-      match e.find p with
-      | some (.alias _ _ t) => serTy e fuel t v
-      | some (.struct _ _ _ fields) => (match v with
-        | .record vals => (fun kvs => Json.obj kvs) <$> serFields e fuel fields vals
-        | _ => unmodelled "value / type mismatch (struct)")
-      | some (.unitStruct ..) => pure .null
-      | some (.tagged _ _ _ tag vs) => (match v with
-        | .variant name payload => match vs.find? (·.name == name), payload with
-          | some var, none => pure (.obj [(tag, .str var.wire)])
-          | some var, some pv => (match var.payload with
-            | some t => do
-              match entriesOf (← serTy e fuel t pv) with
-              | some kvs => pure (.obj ((tag, .str var.wire) :: kvs))
-              | none => unmodelled "tagged newtype variant of a non-struct"
-            | none => unmodelled "payload for a unit variant")
-          | none, _ => unmodelled "unknown variant value"
-        | _ => unmodelled "value / type mismatch (tagged enum)")
-      | some (.gqlEnum _ _ _ _ ser _) => (match v with
-        | .variant name none => match ser.find? (·.1 == name) with
-          | some (_, s) => pure (.str s)
-          | none => unmodelled "enum variant without a serialize arm"
-        | _ => unmodelled "value / type mismatch (enum)")
-      | some (.oneOf _ _ _ vs) => (match v with
-        | .variant name (some pv) => match vs.find? (·.name == name) with
-          | some var => (match var.payload with
-            | some t => do pure (.obj [(var.wire, ← serTy e fuel t pv)])
-            | none => unmodelled "unit @oneOf variant")
-          | none => unmodelled "unknown variant value"
-        | _ => unmodelled "value / type mismatch (@oneOf)")
-      | some (.defaults _) => unmodelled "impl"
-      | none => match e.externs.find? (·.1 == p) with
-        | some (_, t) => serTy e fuel t v
-        | none => unmodelled ("type " ++ p)
+/-- `Option` / `Vec` / `Box` nesting around named types -/
+def serTyWith (path : String → Val → D Json) : RTy → Val → D Json
+  | .opt t, v => match v with
+    | .unit => pure .null
+    | .some x => serTyWith path t x
+    | _ => unmodelled "value / type mismatch (Option)"
+  | .vec t, v => match v with
+    | .list xs => Json.arr <$> xs.mapM (serTyWith path t)
+    | _ => unmodelled "value / type mismatch (Vec)"
+  | .box t, v => serTyWith path t v
+  | .path p, v => path p v
 
-  def serFields (e : Env) : Nat → List RField → List (String × Val) → D (List (String × Json))
-    | 0, _, _ => unmodelled "fuel"
-    | _, [], _ => pure []
-    | fuel+1, f :: fs, vals => do
-      let rest ← serFields e fuel fs vals
-      match vals.find? (·.1 == f.rust) with
-      | none => unmodelled ("no value for field " ++ f.rust)
-      | some (_, v) =>
-        if f.flatten then
-          match entriesOf (← serTy e fuel f.ty v) with
-          | some kvs => pure (kvs ++ rest)
-          | none => bad "can only flatten structs and maps"
-        else if f.skipNone && v == .unit then pure rest
-        else do pure ((f.wire, ← serTy e fuel f.ty v) :: rest)
-end
+/-- the fields of a struct, in declaration order -/
+def serFieldsWith (path : String → Val → D Json) : List RField → List (String × Val) → D (List (String × Json))
+  | [], _ => pure []
+  | f :: fs, vals => do
+    let rest ← serFieldsWith path fs vals
+    match vals.find? (·.1 == f.rust) with
+    | none => unmodelled ("no value for field " ++ f.rust)
+    | some (_, v) =>
+      if f.flatten then
+        match entriesOf (← serTyWith path f.ty v) with
+        | some kvs => pure (kvs ++ rest)
+        | none => bad "can only flatten structs and maps"
+      else if f.skipNone && v.isUnit then pure rest
+      else do pure ((f.wire, ← serTyWith path f.ty v) :: rest)
+
+/-- leaf values serialize independently of the named type -/
+def serPrim : Val → Option Json
+  | .str s => some (.str s)
+  | .int n => some (.int n)
+  | .float j => some j
+  | .bool b => some (.bool b)
+  | .enumOther s => some (.str s)
+  | _ => none
+
+/-- write value `v` of the named type `p`; fuel counts jumps to named types only -/
+def serPath (e : Env) : Nat → String → Val → D Json
+  | 0, _, _ => unmodelled "fuel"
+  | fuel+1, p, v =>
+    match serPrim v with
+    | some j => pure j
+    | none =>
+    match e.find p with
+    | some (.alias _ _ t) => serTyWith (serPath e fuel) t v
+    | some (.struct _ _ _ fields) => (match v with
+      | .record vals => (fun kvs => Json.obj kvs) <$> serFieldsWith (serPath e fuel) fields vals
+      | _ => unmodelled "value / type mismatch (struct)")
+    | some (.unitStruct ..) => pure .null
+    | some (.tagged _ _ _ tag vs) => (match v with
+      | .variant name payload => match vs.find? (·.name == name), payload with
+        | some var, none => pure (.obj [(tag, .str var.wire)])
+        | some var, some pv => (match var.payload with
+          | some t => do
+            match entriesOf (← serTyWith (serPath e fuel) t pv) with
+            | some kvs => pure (.obj ((tag, .str var.wire) :: kvs))
+            | none => unmodelled "tagged newtype variant of a non-struct"
+          | none => unmodelled "payload for a unit variant")
+        | none, _ => unmodelled "unknown variant value"
+      | _ => unmodelled "value / type mismatch (tagged enum)")
+    | some (.gqlEnum _ _ _ _ ser _) => (match v with
+      | .variant name none => match ser.find? (·.1 == name) with
+        | some (_, s) => pure (.str s)
+        | none => unmodelled "enum variant without a serialize arm"
+      | _ => unmodelled "value / type mismatch (enum)")
+    | some (.oneOf _ _ _ vs) => (match v with
+      | .variant name (some pv) => match vs.find? (·.name == name) with
+        | some var => (match var.payload with
+          | some t => do pure (.obj [(var.wire, ← serTyWith (serPath e fuel) t pv)])
+          | none => unmodelled "unit @oneOf variant")
+        | none => unmodelled "unknown variant value"
+      | _ => unmodelled "value / type mismatch (@oneOf)")
+    | some (.defaults _) => unmodelled "impl"
+    | none => match e.externs.find? (·.1 == p) with
+      | some (_, t) => serTyWith (serPath e fuel) t v
+      | none => unmodelled ("type " ++ p)
+
+def serTy (e : Env) (fuel : Nat) (t : RTy) (v : Val) : D Json := serTyWith (serPath e fuel) t v
 
 mutual
   def valSize : Val → Nat
@@ -412,7 +426,7 @@ mutual
 end
 
 def ser (e : Env) (t : RTy) (v : Val) : D Json :=
-  normJson <$> serTy e ((valSize v + e.items.length + 8) * ((e.items.map itemWidth).foldl max 4 + 4)) t v
+  normJson <$> serTy e ((valSize v + 2) * (e.items.length + e.externs.length + 2)) t v
 
 /-- `to_value(from_value(j))` -/
 def roundtrip (e : Env) (t : RTy) (j : Json) : D Json := do ser e t (← de e t j)
